@@ -471,8 +471,9 @@ def d_explained(ctx, d, known_open) -> bool:
 
 
 def write_evidence(ctx: Ctx, nviol: int, known_hits: dict):
-    ev_dir = VERIF / "evidence"
-    ev_dir.mkdir(exist_ok=True)
+    # evidence/ holds runs against /repo itself; runs against a scratch tree (seeded defects) are redirected
+    ev_dir = Path(os.environ.get("VERIF_EVIDENCE_DIR", VERIF / "evidence"))
+    ev_dir.mkdir(parents=True, exist_ok=True)
     thms = ctx.theorems
     obligations = len(thms) + len(ctx.extra.get("gen_obligations", []))
     if not thms:
